@@ -1,6 +1,6 @@
 ------------------------------- MODULE Floats -------------------------------
 (* Float accessors and encoders (properties C12, C03, C04), on top of Half. *)
-EXTENDS Decoder, Half
+EXTENDS SkipProp, Half
 
 VFloatNaN(w) == [k |-> "floatnan", w |-> w]               \* some NaN of width w bytes
 VBytes(b)    == [k |-> "enc", b |-> b]                    \* bytes produced by an encoder call
